@@ -491,7 +491,7 @@ def run(pid, tier, seed, replay=None):
             for it, r in zip(fitems, frecs):
                 r["seed"], r["sizes"] = it["seed"], it["sizes"]
                 ctx.note_case("fig" + json.dumps(it["c"], sort_keys=True), it["c"]["n"] >= 2)
-            check_figure._judge(ctx, work, frecs, ["C06_FigBreak", "C16_Captions"])
+            check_figure._judge(ctx, work, frecs, ["C06_FigBreak", "C06_FigSubline", "C16_Captions"])
             ctx.extra["figure_documents"] = len(frecs)
         multi = sum(1 for s in scs if s["pred"] and s["pred"][-1]["p"] >= 2)
         ctx.extra["scenarios_multi_page"] = multi
@@ -530,7 +530,7 @@ def _replay(ctx, work, spec, path):
         sc = rp["scenario"]
         rec = figure16.run_one({"id": 0, "c": sc["c"], "seed": sc["seed"], "sizes": sc.get("sizes") or check_figure.SIZES["quick"]})
         rec["seed"], rec["sizes"] = sc["seed"], sc.get("sizes")
-        check_figure._judge(ctx, work, [rec], ["C06_FigBreak", "C16_Captions"])
+        check_figure._judge(ctx, work, [rec], ["C06_FigBreak", "C06_FigSubline", "C16_Captions"])
         ctx.note_case("replay", True); ctx.note_case("replay2", True); ctx.sample({"replayed": path}); ctx.rule = "replay of one recorded scenario"
         return ctx.finish()
     sc = {"id": 0, "c": rp["scenario"]["c"], "o": rp["scenario"].get("o") or {}, "pred": None}
